@@ -30,11 +30,14 @@ VARIABLES todo,        \* [w -> ids still to be announced]
           dnnet,       \* [w -> symbols written by the server to w, in flight]
           dnbuf,       \* [w -> symbols in w's client-side StreamReader]
           alive,       \* workers whose connection is up
-          looked       \* [w -> sequence of chunks (sequences of symbols) w looked up as event ids]
+          looked,      \* [w -> sequence of chunks (sequences of symbols) w looked up as event ids]
+          owed,        \* [w -> ids announced by others while w's connection was up and not lost with their sender] (history)
+          joins        \* how many connections were opened after the start (history; bounds the exploration)
 
-vars == <<todo, upnet, upbuf, dnnet, dnbuf, alive, looked>>
+vars == <<todo, upnet, upbuf, dnnet, dnbuf, alive, looked, owed, joins>>
 
 Sym(i) == [k \in 1..K |-> <<i, k>>]
+Range0(q) == {q[x] : x \in DOMAIN q}
 Take(s, n) == SubSeq(s, 1, n)
 Drop(s, n) == SubSeq(s, n + 1, Len(s))
 Min(a, b) == IF a < b THEN a ELSE b
@@ -44,25 +47,27 @@ Init == /\ todo = IdsOf
         /\ dnnet = [w \in Workers |-> <<>>] /\ dnbuf = [w \in Workers |-> <<>>]
         /\ alive = Workers
         /\ looked = [w \in Workers |-> <<>>]
+        /\ owed = [w \in Workers |-> {}] /\ joins = 0
 
 (* NotifyClient.notify: writer.write(event.id_bytes) *)
 Announce(w) ==
     /\ w \in alive /\ todo[w] # <<>>
     /\ upnet' = [upnet EXCEPT ![w] = @ \o Sym(Head(todo[w]))]
     /\ todo' = [todo EXCEPT ![w] = Tail(@)]
-    /\ UNCHANGED <<upbuf, dnnet, dnbuf, alive, looked>>
+    /\ owed' = [p \in Workers |-> IF p # w /\ p \in alive THEN owed[p] \cup {Head(todo[w])} ELSE owed[p]]
+    /\ UNCHANGED <<upbuf, dnnet, dnbuf, alive, looked, joins>>
 
 (* the transport hands over a non-empty prefix of what is in flight *)
 DeliverUp(w, n) ==
     /\ n \in 1..Len(upnet[w])
     /\ upbuf' = [upbuf EXCEPT ![w] = @ \o Take(upnet[w], n)]
     /\ upnet' = [upnet EXCEPT ![w] = Drop(@, n)]
-    /\ UNCHANGED <<todo, dnnet, dnbuf, alive, looked>>
+    /\ UNCHANGED <<todo, dnnet, dnbuf, alive, looked, owed, joins>>
 DeliverDown(w, n) ==
     /\ n \in 1..Len(dnnet[w])
     /\ dnbuf' = [dnbuf EXCEPT ![w] = @ \o Take(dnnet[w], n)]
     /\ dnnet' = [dnnet EXCEPT ![w] = Drop(@, n)]
-    /\ UNCHANGED <<todo, upnet, upbuf, alive, looked>>
+    /\ UNCHANGED <<todo, upnet, upbuf, alive, looked, owed, joins>>
 
 \* how many symbols the read primitive returns from a buffer b (0 = it keeps waiting)
 ReadLen(b) == IF Exact THEN (IF Len(b) >= K THEN K ELSE 0) ELSE Min(Len(b), K)
@@ -75,7 +80,7 @@ ServerRelay(w) ==
            chunk == Take(upbuf[w], n) IN
         /\ upbuf' = [upbuf EXCEPT ![w] = Drop(@, n)]
         /\ dnnet' = [p \in Workers |-> IF p # w /\ p \in alive THEN dnnet[p] \o chunk ELSE dnnet[p]]
-    /\ UNCHANGED <<todo, upnet, dnbuf, alive, looked>>
+    /\ UNCHANGED <<todo, upnet, dnbuf, alive, looked, owed, joins>>
 
 (* NotifyClient.connect loop: read, get_event(data.hex()), notify_all_connected *)
 ClientLookup(w) ==
@@ -84,7 +89,7 @@ ClientLookup(w) ==
     /\ LET n == ReadLen(dnbuf[w]) IN
         /\ looked' = [looked EXCEPT ![w] = Append(@, Take(dnbuf[w], n))]
         /\ dnbuf' = [dnbuf EXCEPT ![w] = Drop(@, n)]
-    /\ UNCHANGED <<todo, upnet, upbuf, dnnet, alive>>
+    /\ UNCHANGED <<todo, upnet, upbuf, dnnet, alive, owed, joins>>
 
 (* a peer goes away mid-stream: its connection is closed, what it had in flight is lost *)
 PeerDrop(w) ==
@@ -92,9 +97,18 @@ PeerDrop(w) ==
     /\ alive' = alive \ {w}
     /\ upnet' = [upnet EXCEPT ![w] = <<>>] /\ upbuf' = [upbuf EXCEPT ![w] = <<>>]
     /\ dnnet' = [dnnet EXCEPT ![w] = <<>>] /\ dnbuf' = [dnbuf EXCEPT ![w] = <<>>]
-    /\ UNCHANGED <<todo, looked>>
+    \* w is owed nothing any more, and what w announced and another worker has not looked up yet may be lost with it
+    /\ owed' = [p \in Workers |-> IF p = w THEN {} ELSE owed[p] \ {i \in Range0(IdsOf[w]) : ~\E k \in DOMAIN looked[p] : looked[p][k] = Sym(i)}]
+    /\ UNCHANGED <<todo, looked, joins>>
 
-Next == \/ \E w \in Workers : Announce(w) \/ ServerRelay(w) \/ ClientLookup(w) \/ PeerDrop(w)
+(* a worker (re)connects: a new connection to the server, nothing buffered; it is owed what is announced from now on *)
+Join(w) ==
+    /\ w \notin alive
+    /\ alive' = alive \cup {w}
+    /\ joins' = joins + 1
+    /\ UNCHANGED <<todo, upnet, upbuf, dnnet, dnbuf, looked, owed>>
+
+Next == \/ \E w \in Workers : Announce(w) \/ ServerRelay(w) \/ ClientLookup(w) \/ PeerDrop(w) \/ Join(w)
         \/ \E w \in Workers, n \in 1..(K * 3) : DeliverUp(w, n) \/ DeliverDown(w, n)
 
 Spec == Init /\ [][Next]_vars
@@ -117,9 +131,13 @@ C20_SenderOrder ==
     \A w \in Workers : \A v \in Workers \ {w} :
         \A k, m \in DOMAIN looked[w] : k < m =>
             \A a, b \in DOMAIN IdsOf[v] : (IsIdOf(looked[w][k], IdsOf[v][a]) /\ IsIdOf(looked[w][m], IdsOf[v][b])) => a < b
-\* when nothing is in flight any more and nobody dropped, every worker has looked up everything the others announced
+\* when nothing is in flight any more and nobody ever dropped, every worker has looked up everything the others announced
 Drained == \A w \in Workers : upnet[w] = <<>> /\ upbuf[w] = <<>> /\ dnnet[w] = <<>> /\ dnbuf[w] = <<>>
 C20_AllDelivered ==
-    (Drained /\ alive = Workers) =>
+    (Drained /\ alive = Workers /\ joins = 0) =>
         \A w \in Workers : \A v \in Workers \ {w} : \A i \in Range(Announced(v)) : \E k \in DOMAIN looked[w] : IsIdOf(looked[w][k], i)
+\* with workers coming and going: whoever is connected in the end has looked up everything it is owed - a connection
+\* opened or closed by one worker never costs another worker its ids
+C20_StayersServed ==
+    Drained => \A w \in alive : \A i \in owed[w] : \E k \in DOMAIN looked[w] : IsIdOf(looked[w][k], i)
 =============================================================================
